@@ -83,4 +83,29 @@ def explain (cfg : Nat → LockCfg) (a : ASt) (op : Op) (impl : Bool) : Option S
     else some s!"Release by the current holder (instance {i}) reported false"
   | _ => some "operation without result reported failure"
 
+/-! ### what the callers believe
+
+A caller whose `Acquire` returned true at time `t` with `seconds = s` believes it holds the lock until
+`t + s·1000 + 500` (the lease the property promises) or until it calls `Release`.  A refused `Acquire`
+leaves an earlier belief alone.  `Belief.step` is fed with *results* (the model's in the theorems, the
+implementation's in the driver's monitor), never with the store. -/
+
+abbrev Belief := Nat → Option Nat
+
+def updB (b : Belief) (i : Nat) (v : Option Nat) : Belief := fun j => if j = i then v else b j
+
+def Belief.none : Belief := fun _ => Option.none
+
+def Belief.step (b : Belief) (now : Nat) (secs : Nat → Nat) (op : Op) (res : Bool) : Belief :=
+  match op with
+  | .acquire i => if res then updB b i (some (now + (secs i * 1000 + 500))) else b
+  | .release i => updB b i Option.none
+  | _ => b
+
+/-- `i` believes it holds its key at time `now` -/
+def believes (b : Belief) (now : Nat) (i : Nat) : Bool :=
+  match b i with
+  | some u => decide (now < u)
+  | Option.none => false
+
 end GoZero.C19.Spec
